@@ -313,7 +313,31 @@ type vArbCtx struct {
 	quitCl bool
 }
 
+// vT0 is the instant every case's test clock starts at.
+var vT0 = time.Unix(1700000000, 0)
+
+// vNewArb builds the arbitrator of a direct-call case (TestVerifActions): what
+// Start() does, minus the goroutine.
 func vNewArb(t *testing.T, db kvdb.Backend, c *vCaseA) *vArbCtx {
+	clk := clock.NewTestClock(vT0)
+	ctx := vNewArbWith(t, db, c.ID, &c.Env, &c.Active, clk, nil)
+	ctx.arb.startTimestamp = clk.Now()
+	ctx.arb.state = StateDefault
+	clk.SetTime(vT0.Add(time.Duration(c.Env.Uptime) * time.Second))
+	return ctx
+}
+
+// vNewArbWith builds a real ChannelArbitrator (not started) over the bolt log
+// of channel `id` in db.  scidOK (optional) restricts IsForwardedHTLC to the
+// short channel id the link announced last (event-loop harness).
+func vNewArbWith(t *testing.T, db kvdb.Backend, id int, env *vEnvA, active *vSets,
+	clk clock.Clock, scidOK func(lnwire.ShortChannelID) bool) *vArbCtx {
+
+	c := &struct {
+		ID     int
+		Env    *vEnvA
+		Active *vSets
+	}{id, env, active}
 	ctx := &vArbCtx{ch: &vChannel{}}
 	var cp wire.OutPoint
 	binary.BigEndian.PutUint64(cp.Hash[:8], uint64(c.ID)+1)
@@ -331,8 +355,6 @@ func vNewArb(t *testing.T, db kvdb.Backend, c *vCaseA) *vArbCtx {
 	for _, e := range c.Env.Inv {
 		reg.inv[vHash(e[0])] = e[1] != 0
 	}
-	t0 := time.Unix(1700000000, 0)
-	clk := clock.NewTestClock(t0)
 
 	chainArbCfg := ChainArbitratorConfig{
 		ChainIO:   &mockChainIO{},
@@ -366,7 +388,10 @@ func vNewArb(t *testing.T, db kvdb.Backend, c *vCaseA) *vArbCtx {
 			return nil
 		},
 		OnionProcessor: &mockOnionProcessor{},
-		IsForwardedHTLC: func(_ lnwire.ShortChannelID, idx uint64) bool {
+		IsForwardedHTLC: func(scid lnwire.ShortChannelID, idx uint64) bool {
+			if scidOK != nil && !scidOK(scid) {
+				return false
+			}
 			return fwd[idx]
 		},
 		SubscribeBreachComplete: func(*wire.OutPoint, chan struct{}) (bool, error) {
@@ -436,12 +461,7 @@ func vNewArb(t *testing.T, db kvdb.Backend, c *vCaseA) *vArbCtx {
 	if c.Active.HasP {
 		sets[RemotePendingHtlcSet] = newHtlcSet(vToHTLCs(c.Active.P))
 	}
-	arb := NewChannelArbitrator(arbCfg, sets, ctx.log)
-	// What Start() does, minus the goroutine.
-	arb.startTimestamp = clk.Now()
-	arb.state = StateDefault
-	clk.SetTime(t0.Add(time.Duration(c.Env.Uptime) * time.Second))
-	ctx.arb = arb
+	ctx.arb = NewChannelArbitrator(arbCfg, sets, ctx.log)
 	return ctx
 }
 
@@ -868,6 +888,7 @@ func vWitnessCase(id int) *vCaseA {
 }
 
 func TestVerifActions(t *testing.T) {
+	t.Parallel() // overlaps with TestVerifAttendant (both are fsync bound)
 	out := vOpenOut()
 	defer out.close()
 
